@@ -880,6 +880,208 @@ def desugar_comprehensions(fn):
 
 
 # ------------------------------------------------------------------------------
+# loops over a literal sequence -> unrolled (table-driven clean-ups such as
+# `for kind in ('cores', 'gpus'): ...node[kind]...` disappear)
+#
+def _simple_elt(e):
+    if isinstance(e, ast.Constant):
+        return True
+    if isinstance(e, ast.Name):
+        return True
+    if isinstance(e, ast.Attribute):
+        return _simple_elt(e.value)
+    if isinstance(e, ast.Subscript):
+        return _simple_elt(e.value) and isinstance(e.slice, ast.Constant)
+    return False
+
+
+def _decontinue(body):
+    """rewrite `continue` of the loop level away: `if c: ...; continue` +
+    REST  ->  `if c: ... else: REST`.  None if a continue sits elsewhere."""
+    out = []
+    for i, s in enumerate(body):
+        rest = body[i + 1:]
+        if isinstance(s, ast.Continue):
+            return out
+        if isinstance(s, ast.Break):
+            return None
+        if isinstance(s, ast.If):
+            b = _decontinue(s.body)
+            o = _decontinue(s.orelse) if s.orelse else []
+            if b is None or o is None:
+                return None
+            b_cont = bool(s.body) and isinstance(s.body[-1], ast.Continue) \
+                or len(b) != len(s.body)
+            o_cont = bool(s.orelse) and (isinstance(s.orelse[-1], ast.Continue)
+                                         or len(o) != len(s.orelse))
+            if (b_cont or o_cont) and rest:
+                r = _decontinue(rest)
+                if r is None:
+                    return None
+                nb = b if b_cont else b + r
+                no = o if o_cont else o + copy.deepcopy(r)
+                n = ast.If(test=s.test, body=nb or [ast.Pass()], orelse=no)
+                ast.copy_location(n, s)
+                out.append(n)
+                return out
+            n = ast.If(test=s.test, body=b or [ast.Pass()], orelse=o)
+            ast.copy_location(n, s)
+            out.append(n)
+            continue
+        if isinstance(s, (ast.Try, ast.With)):
+            for x in walk(s):
+                if isinstance(x, (ast.Continue, ast.Break)):
+                    # only if it belongs to this loop level: a nested loop
+                    # owns its own jumps, but walk() does not tell; be strict
+                    inner = any(isinstance(y, (ast.For, ast.While))
+                                for y in walk(s))
+                    if not inner:
+                        return None
+        out.append(s)
+    return out
+
+
+def _own_jumps(body):
+    """Continue/Break statements that belong to the loop whose body this is"""
+    found = []
+
+    def rec(stmts):
+        for s in stmts:
+            if isinstance(s, (ast.Continue, ast.Break)):
+                found.append(s)
+            elif isinstance(s, (ast.For, ast.While, ast.AsyncFor)):
+                rec(s.orelse)
+            elif isinstance(s, (ast.FunctionDef, ast.ClassDef,
+                                ast.AsyncFunctionDef)):
+                continue
+            else:
+                for fld in ('body', 'orelse', 'finalbody'):
+                    b = getattr(s, fld, None)
+                    if isinstance(b, list):
+                        rec(b)
+                for h in getattr(s, 'handlers', []) or []:
+                    rec(h.body)
+    rec(body)
+    return found
+
+
+def unroll_const_loops(fn):
+    changed = False
+    loads_outside = {}
+
+    def stores_in(nodes):
+        out = set()
+        for s in nodes:
+            for x in ast.walk(s):
+                if isinstance(x, ast.Name) and isinstance(x.ctx, (ast.Store,
+                                                                   ast.Del)):
+                    out.add(x.id)
+        return out
+
+    def conv(s, uid):
+        nonlocal changed
+        if not isinstance(s, ast.For) or s.orelse:
+            return None
+        it = s.iter
+        if not isinstance(it, (ast.List, ast.Tuple)) or \
+                not 1 <= len(it.elts) <= 6:
+            return None
+        if isinstance(s.target, ast.Name):
+            names = [s.target.id]
+            rows = [[e] for e in it.elts]
+        elif isinstance(s.target, (ast.Tuple, ast.List)) and all(
+                isinstance(t, ast.Name) for t in s.target.elts):
+            names = [t.id for t in s.target.elts]
+            rows = []
+            for e in it.elts:
+                if not isinstance(e, (ast.Tuple, ast.List)) or \
+                        len(e.elts) != len(names):
+                    return None
+                rows.append(list(e.elts))
+        else:
+            return None
+        if not all(_simple_elt(e) for r in rows for e in r):
+            return None
+        st = stores_in(s.body)
+        if st & set(names):
+            return None
+        for r in rows:
+            for e in r:
+                if any(isinstance(x, ast.Name) and x.id in st
+                       for x in ast.walk(e)):
+                    return None
+        jumps = _own_jumps(s.body)
+        if any(isinstance(j, ast.Break) for j in jumps):
+            return None
+        body = s.body
+        if jumps:
+            body = _decontinue(copy.deepcopy(s.body))
+            if body is None or _own_jumps(body):
+                return None
+        # the loop variables must not be read after the loop
+        used_after = set()
+        for x in ast.walk(fn):
+            if isinstance(x, ast.Name) and isinstance(x.ctx, ast.Load) and \
+                    x.id in names:
+                used_after.add(id(x))
+        inside = {id(x) for x in ast.walk(s)}
+        # reads inside another loop that binds the same name itself are fine
+        for other in ast.walk(fn):
+            if isinstance(other, (ast.For, ast.comprehension)) and \
+                    other is not s and any(
+                        isinstance(t, ast.Name) and t.id in names
+                        for t in ast.walk(other.target)):
+                holder = other
+                if isinstance(other, ast.comprehension):
+                    continue
+                inside |= {id(x) for x in ast.walk(holder)}
+        if used_after - inside:
+            return None
+        # locals of the body which are not read outside the loop get one name
+        # per unrolled iteration (so that they stay single-assignment)
+        outside_loads = {x.id for x in ast.walk(fn)
+                         if isinstance(x, ast.Name) and id(x) not in inside
+                         and not isinstance(x.ctx, ast.Store)}
+        private = {n for n in st if n not in outside_loads}
+        out = []
+        for k, r in enumerate(rows):
+            mapping = dict(zip(names, r))
+            for n in private:
+                mapping[n] = '%s__u%d_%d' % (n, uid, k)
+            blk = [_Subst(mapping).visit(copy.deepcopy(x)) for x in body]
+            for b in blk:
+                for x in ast.walk(b):
+                    if isinstance(x, (ast.expr, ast.stmt)) and \
+                            not hasattr(x, 'lineno'):
+                        ast.copy_location(x, s)
+                ast.fix_missing_locations(b)
+            out += blk
+        changed = True
+        return out or [ast.Pass()]
+
+    counter = [0]
+
+    def do_block(stmts):
+        out = []
+        for s in stmts:
+            if isinstance(s, (ast.FunctionDef, ast.ClassDef,
+                              ast.AsyncFunctionDef)):
+                out.append(s)
+                continue
+            for fld in ('body', 'orelse', 'finalbody'):
+                if isinstance(getattr(s, fld, None), list):
+                    setattr(s, fld, do_block(getattr(s, fld)))
+            for h in getattr(s, 'handlers', []) or []:
+                h.body = do_block(h.body)
+            counter[0] += 1
+            r = conv(s, counter[0])
+            out += r if r else [s]
+        return out
+    fn.body = do_block(fn.body)
+    return changed
+
+
+# ------------------------------------------------------------------------------
 # table dispatch -> if-chain
 #
 def _table_of(prog, finfo, expr, local_tables):
@@ -1072,6 +1274,9 @@ def normalized_program(prog, desugar=True):
                 stats['desugared_functions'] += 1
             if expand_tables(p2, f):
                 stats['expanded_tables'] = stats.get('expanded_tables', 0) + 1
+                any_change = True
+            if unroll_const_loops(f.node):
+                stats['unrolled_loops'] = stats.get('unrolled_loops', 0) + 1
                 any_change = True
             if inl.run_function(f):
                 any_change = True
